@@ -39,6 +39,8 @@ func main() {
 		childVerify(os.Args[2])
 	case "libmatch":
 		childMatch(os.Args[2])
+	case "librecord":
+		childRecord(os.Args[2])
 	case "gen":
 		if len(os.Args) < 8 {
 			usage()
